@@ -51,11 +51,17 @@ def gen_entries(rng, malformed):
     ents += rng.sample(ents, min(len(ents), 3))          # duplicates
   rng.shuffle(ents)
   if malformed:
-    kind = rng.choice(['garbage', 'month13', 'feb30', 'three_parts', 'empty', 'reversed', 'day0', 'noleap'])
+    kind = rng.choice(['garbage', 'month13', 'feb30', 'three_parts', 'empty', 'reversed', 'reversed', 'day0', 'noleap'])
     bad = {'garbage': ('raw', 'not a date'), 'month13': ('raw', '2020/13/01'), 'feb30': ('raw', '2020/02/30'),
            'three_parts': ('raw', '2020/01/01 - 2020/01/05 - 2020/01/09'), 'empty': ('raw', ''),
            'day0': ('raw', '2020/01/00'), 'noleap': ('raw', '2019/02/29 - 2019/03/02'),
-           'reversed': ('range', (2020, 3, 1), (2020, 2, 1))}[kind]
+           'reversed': None}[kind]
+    if bad is None:
+      # a reversed range: by one day (also across a month, leap-day or year boundary), a few days, or more
+      a = rng.choice([datetime.date(2020, 3, 1), datetime.date(2021, 1, 1), datetime.date(2020, 2, 29), datetime.date(2019, 3, 1),
+                      datetime.date(2020, 6, 15), datetime.date(2100, 3, 1)])
+      b = a - datetime.timedelta(days=rng.choice([1, 1, 1, 2, 7, 29, 366]))
+      bad = ('range', (a.year, a.month, a.day), (b.year, b.month, b.day))
     ents.insert(rng.randint(0, len(ents)), bad)
   return ents
 
@@ -174,7 +180,7 @@ def run(tier):
   ck.cov['rule'] = ('lists of 0-12 entries (single days and closed ranges of 0-366 days, clustered around an anchor date so '
                     'that they overlap, with duplicated entries, shuffled), dates over 1900-2199 biased to month / year / '
                     'leap-day boundaries (1900, 2000, 2100, Feb 28/29); every fourth list carries one malformed entry '
-                    '(garbage, month 13, Feb 30, day 0, Feb 29 of a common year, three parts, empty string, reversed range). '
+                    '(garbage, month 13, Feb 30, day 0, Feb 29 of a common year, three parts, empty string, range reversed by one day or more, also across month / leap-day / year boundaries). '
                     'non-trivial: at least two entries; distinct: the entry list')
   ck.cov['distribution'] = dist
   ck.cov['correspondence'] = {'lists_model_vs_impl': len(terms), 'disagreements': len(bad)}
